@@ -785,6 +785,26 @@ class SX:
         return res
 
     @staticmethod
+    def _boolish(node):
+        """an expression that can only be a truth value (comparison, not, and/or of such, isinstance/hasattr/callable/bool call,
+        True/False): `a and b` over such operands is a truth value; over anything else it is one of the operands"""
+        if isinstance(node, ast.Compare):
+            return True
+        if isinstance(node, ast.UnaryOp) and isinstance(node.op, ast.Not):
+            return True
+        if isinstance(node, ast.BoolOp):
+            return all(SX._boolish(v) for v in node.values)
+        if isinstance(node, ast.Constant) and isinstance(node.value, bool):
+            return True
+        if isinstance(node, ast.Call) and isinstance(node.func, ast.Name) and node.func.id in ('isinstance', 'issubclass', 'hasattr', 'callable', 'bool', 'any', 'all'):
+            return True
+        if isinstance(node, ast.Attribute) and (node.attr.endswith('_is_computable') or node.attr.startswith('is_') or node.attr in ('self_locking',)):
+            return True
+        if isinstance(node, ast.Call) and isinstance(node.func, ast.Attribute) and (node.func.attr.startswith('is_') or node.func.attr in ('check_condition', 'endswith', 'startswith')):
+            return True
+        return False
+
+    @staticmethod
     def _is_static(fn):
         return any(isinstance(d, ast.Name) and d.id == 'staticmethod' for d in fn.decorator_list)
 
@@ -925,7 +945,18 @@ class SX:
     def try_stmt(self, s: ast.Try, st, frame):
         """body outcomes that raise an exception named by a handler continue in that handler"""
         if s.finalbody:
-            raise CannotDecide('try with finally')
+            # try/finally: the final block runs on EVERY way out of the rest (fall-through, return, break, continue, raise) and then
+            # that way out is resumed - unless the final block itself leaves differently
+            inner = ast.copy_location(ast.Try(body=s.body, handlers=s.handlers, orelse=s.orelse, finalbody=[]), s)
+            outs0 = self.try_stmt(inner, st, frame) if (s.handlers or s.orelse) else self.block(s.body, [st], frame)
+            res = []
+            for o in outs0:
+                for f in self.block(s.finalbody, [o.state], frame):
+                    if f.kind == 'fall':
+                        res.append(Outcome(f.state, o.kind, o.value, o.loc))
+                    else:
+                        res.append(f)
+            return res
         res = []
         body = self.block(s.body, [st], frame)
         for o in body:
@@ -1414,7 +1445,7 @@ class SX:
                     continue
                 res.append(out if isinstance(out, Outcome) else (s, out))
             return res
-        if isinstance(n, ast.BoolOp) and self.eval_comprehensions:
+        if isinstance(n, ast.BoolOp) and (self.eval_comprehensions or not all(self._boolish(v) for v in n.values)):
             # Python value semantics: `a or b` is a when a is truthy, else b (objects, not just truth values)
             is_or = isinstance(n.op, ast.Or)
             res, cur = [], [st]
@@ -2900,6 +2931,9 @@ class SX:
                     else:
                         groups.append((x, [Sv(x)]))
                 return [(st, Tv([Tv([Sv(k), Tv(g)], 'tuple') for k, g in groups]))]
+        if name == 'pairwise' and len(args) == 1 and isinstance(args[0], Tv):
+            it = args[0].items
+            return [(st, Tv([Tv([a, b], 'tuple') for a, b in zip(it, it[1:])]))]
         if name == 'zip' and args and all(isinstance(a, Tv) for a in args):
             return [(st, Tv([Tv(list(t), 'tuple') for t in zip(*[a.items for a in args])]))]
         if name == 'enumerate' and len(args) == 1 and isinstance(args[0], Tv):
